@@ -14,7 +14,7 @@ def proof_stage(v, prop, extra_obligations=0, extra_discharged=0):
     from .. import translate
     gen_errors = translate.regenerate_all()
     problems = C.coq_lint()
-    dep = {"C18": "freeze", "C17": "seed", "C08": "api", "C04": "uid"}.get(prop)
+    dep = {"C18": "freeze", "C17": "seed", "C08": "api", "C04": "uid", "C06": "filter", "C15": "subfaces"}.get(prop)
     if dep and dep in gen_errors:
         problems = problems + [f"translator {dep} failed (fail-closed): {gen_errors[dep]}"]
     pr = C.check_props(prop)
